@@ -71,6 +71,7 @@ type Exec struct {
 	siteAlias map[ssa.Instruction]string
 	frameUnless string // set by models around a frame check: condition under which nothing is written
 	ai *assignInfo
+	allocPos map[token.Pos]bool // declaration positions of the variables that live in memory
 	v        *Verifier
 	fn       *ssa.Function
 	con      *Contract
@@ -1079,6 +1080,10 @@ func bindResults(env *Env, sig *types.Signature, results []Value) {
 				}
 			}
 			if !isParam {
+				// a local variable of that name stays reachable as err_local
+				if lv, has := env.vars["err"]; has && !env.inCallee {
+					env.vars["err_local"] = lv
+				}
 				env.vars["err"] = results[n-1]
 			}
 		}
